@@ -1,4 +1,4 @@
-From GD Require Import C05.Recurse C05.SieRead Gen.Limits.
+From GD Require Import C05.Recurse C05.SieRead C05.LzmaWindow Gen.Limits.
 Require Import ExtrOcamlBasic.
 Extraction Language OCaml.
-Extraction "model.ml" sie_get eval_top get_top gd_max_recurse_level.
+Extraction "model.ml" sie_get eval_top get_top gd_max_recurse_level lzma_seek lzma_read full_orc fresh cursor.
